@@ -5,6 +5,7 @@ use vstd::std_specs::iter::IteratorSpec;
 verus! {
 //@ include prelude/core.rs
 //@ include prelude/std_specs.rs
+//@ include prelude/floatmodel.rs
 pub mod u {
 use super::*;
 //@ assume num_traits::<u64 as ToPrimitive>::to_i64 : external crate: Some iff the value fits i64
@@ -73,6 +74,56 @@ impl BigUint {
         self.data.len() as u64 * u64::from(big_digit::BITS) - zeros
     }
 //@ end
+}
+
+// the generic helper fls (T: PrimInt, num_traits) at T = u64 (rule R56 names this instance fls64)
+//@ extract src/biguint/convert.rs :: fn fls tysub=<T:PrimInt>=>;v:T=>v:u64;mem::size_of::<T>()=>8usize;fn~fls=>fn~fls64 props=C08,C14 label=fls64
+fn fls64(v: u64) -> /*+*/(r: /*-*/u8/*+*/)/*-*/
+//+{
+    ensures r as int == nbits(v)
+//+}
+{
+//+{
+    proof { vstd::std_specs::bits::axiom_u64_leading_zeros(v); }
+//+}
+    8usize as u8 * 8 - v.leading_zeros() as u8
+}
+//@ end
+
+/// the round-to-odd mantissa of a value of two or more digits has its top bit set
+pub proof fn lemma_fls_mant(s: Seq<u64>)
+    requires wf(s)
+    ensures s.len() >= 2 ==> nbits(hb_spec(s)) == 64
+{
+    if s.len() >= 2 {
+        let n = s.len() as int;
+        let top = s[n - 1];
+        let sec = s[n - 2];
+        let t = nbits(top);
+        lemma_nbits_range(top);
+        vstd::std_specs::bits::axiom_u64_leading_zeros(top);
+        let m = hb_spec(s);
+        vstd::std_specs::bits::axiom_u64_leading_zeros(m);
+        let lz = vstd::std_specs::bits::u64_leading_zeros(top);
+        // bit t-1 of top is set; after the left shift by 64 - t it is bit 63
+        let k: u64 = sub(63u64, lz as u64);
+        assert((top >> k) & 1 != 0);
+        if t == 64 {
+            let b = b2u(any_nz(s, 0, n - 1));
+            assert(((top | b) >> 63u64) & 1 != 0) by (bit_vector) requires (top >> 63u64) & 1 != 0;
+        } else {
+            let sh = (64 - t) as u64;
+            let low = (sec >> (t as u64));
+            let b = b2u((sec << ((64 - t) as u64)) != 0 || any_nz(s, 0, n - 2));
+            assert(k + sh == 63);
+            assert(((((top << sh) | low) | b) >> 63u64) & 1 != 0) by (bit_vector) requires (top >> k) & 1 != 0, k + sh == 63, sh < 64;
+        }
+        assert((m >> 63u64) & 1 != 0);
+        // hence no leading zero
+        if vstd::std_specs::bits::u64_leading_zeros(m) > 0 {
+            assert((m >> 63u64) & 1 == 0);
+        }
+    }
 }
 
 //@ extract src/biguint/convert.rs :: fn high_bits_to_u64 props=C08
@@ -307,6 +358,50 @@ impl BigUint {
 //+}
     {
         match self.to_u128() { Some(v__) => __u128_to_i128(v__), None => None, }
+    }
+//@ end
+
+//@ extract src/biguint/convert.rs :: impl ToPrimitive for BigUint :: fn to_f64 rules=R0,R24c,R56 props=C08,C14
+    fn to_f64(&self) -> /*+*/(r: /*-*/Option<MF64>/*+*/)/*-*/
+//+{
+        requires self.wf()
+        ensures r is Some,
+            r.unwrap() == (if fexp(self.dg()) > 1024 { finf64() } else { fmul64(fcast64(fmant(self.dg())), fpow2_64(fexp(self.dg()) as i32)) }),
+//+}
+    {
+//+{
+        proof { axiom_vec_u64_len(&self.data); lemma_fls_mant(self.data@); }
+//+}
+        let mantissa = high_bits_to_u64(self);
+        let exponent = self.bits() - u64::from(fls64(mantissa));
+
+        if exponent > 1024u64 {
+            Some(__f64_infinity())
+        } else {
+            Some(__u64_as_f64(mantissa).mul(__f64_pow2(exponent as i32)))
+        }
+    }
+//@ end
+
+//@ extract src/biguint/convert.rs :: impl ToPrimitive for BigUint :: fn to_f32 rules=R0,R24c,R56 props=C08,C14
+    fn to_f32(&self) -> /*+*/(r: /*-*/Option<MF32>/*+*/)/*-*/
+//+{
+        requires self.wf()
+        ensures r is Some,
+            r.unwrap() == (if fexp(self.dg()) > 128 { finf32() } else { fmul32(fcast32(fmant(self.dg())), fpow2_32(fexp(self.dg()) as i32)) }),
+//+}
+    {
+//+{
+        proof { axiom_vec_u64_len(&self.data); lemma_fls_mant(self.data@); }
+//+}
+        let mantissa = high_bits_to_u64(self);
+        let exponent = self.bits() - u64::from(fls64(mantissa));
+
+        if exponent > 128u64 {
+            Some(__f32_infinity())
+        } else {
+            Some(__u64_as_f32(mantissa).mul(__f32_pow2(exponent as i32)))
+        }
     }
 //@ end
 }
